@@ -539,6 +539,8 @@ struct Child {
     hb: PathBuf,
     last_counter: u64,
     last_change: Instant,
+    /// CPU seconds of the child when its heartbeat last changed
+    cpu_at_change: f64,
     done: bool,
 }
 
@@ -553,9 +555,26 @@ fn spawn_worker(exe: &std::path::Path, check: &dyn Check, a: &SupArgs, shard: u6
     }
     cmd.stdin(std::process::Stdio::null()).stdout(std::process::Stdio::null()).stderr(std::process::Stdio::null());
     let proc = cmd.spawn().expect("spawn worker");
-    Child { proc, shard, out, hb, last_counter: 0, last_change: Instant::now(), done: false }
+    Child { proc, shard, out, hb, last_counter: 0, last_change: Instant::now(), cpu_at_change: 0.0, done: false }
 }
 
+/// CPU seconds (user+system) consumed so far by process `pid` (Linux /proc); None if unreadable
+fn proc_cpu_secs(pid: u32) -> Option<f64> {
+    let s = std::fs::read_to_string(format!("/proc/{}/stat", pid)).ok()?;
+    let rest = &s[s.rfind(')')? + 2..];
+    let f: Vec<&str> = rest.split_whitespace().collect();
+    let ut: f64 = f.get(11)?.parse().ok()?;
+    let st: f64 = f.get(12)?.parse().ok()?;
+    Some((ut + st) / 100.0)
+}
+/// CPU seconds consumed so far by the calling thread
+pub fn thread_cpu_secs() -> f64 {
+    let mut ts = libc::timespec { tv_sec: 0, tv_nsec: 0 };
+    unsafe {
+        libc::clock_gettime(libc::CLOCK_THREAD_CPUTIME_ID, &mut ts);
+    }
+    ts.tv_sec as f64 + ts.tv_nsec as f64 * 1e-9
+}
 fn read_hb(p: &std::path::Path) -> (u64, u64) {
     match std::fs::read(p) {
         Ok(b) if b.len() >= 16 => (u64::from_le_bytes(b[..8].try_into().unwrap()), u64::from_le_bytes(b[8..16].try_into().unwrap())),
@@ -618,14 +637,18 @@ pub fn supervise(check: &dyn Check, a: SupArgs) -> SupResult {
                 Ok(None) => {
                     alive += 1;
                     let (idx, cnt) = read_hb(&c.hb);
+                    // A hang is "no progress while burning CPU": the budget is CPU seconds of the child, so a loaded
+                    // machine cannot make a healthy run look hung; wall time is only a 20x backstop (blocked forever).
+                    let cpu = proc_cpu_secs(c.proc.id()).unwrap_or(0.0);
                     if cnt != c.last_counter {
                         c.last_counter = cnt;
                         c.last_change = Instant::now();
-                    } else if cnt > 0 && c.last_change.elapsed() > hang {
+                        c.cpu_at_change = cpu;
+                    } else if cnt > 0 && (cpu - c.cpu_at_change > hang.as_secs_f64() || c.last_change.elapsed() > hang * 20) {
                         let _ = c.proc.kill();
                         let _ = c.proc.wait();
                         alive -= 1;
-                        fatal.push((idx, "hang".into(), format!("run made no progress for {}s", hang.as_secs()), read_cur(&c.hb.with_extension("cur"))));
+                        fatal.push((idx, "hang".into(), format!("run made no progress for {}s of CPU time", hang.as_secs()), read_cur(&c.hb.with_extension("cur"))));
                         skip.push(idx);
                         respawn.push((ci, idx / batch));
                     }
@@ -847,7 +870,7 @@ pub fn replay(check: &dyn Check, file: &Value) -> i32 {
 pub fn replay_contained(check: &dyn Check, file: &Value, path: &str) -> i32 {
     let exe = std::env::current_exe().expect("exe");
     let mut child = std::process::Command::new(exe).arg("replay").arg(path).arg("--inner").stdin(std::process::Stdio::null()).spawn().expect("spawn replay");
-    let limit = Duration::from_secs(check.hang_secs() + 5);
+    let limit = Duration::from_secs(check.hang_secs() * 3 + 5);
     let t0 = Instant::now();
     let want = file["class"].as_str().unwrap_or("");
     loop {
